@@ -9,7 +9,9 @@
     library can build a message ([sendable]); V1R1..V2R2 panic("implement me"). *)
 From Coq Require Import List NArith ZArith Arith Bool.
 From Tongo Require Import Lib.Bits Lib.Res Spec.Sha256 Model.BocParse Model.CellHash Spec.ReprHash
-  Model.Wallet Proofs.WalletP Proofs.WalletSigP Proofs.WalletRtP Proofs.WalletHlP Proofs.WalletLayoutP.
+  Model.Wallet Proofs.WalletP Proofs.WalletSigP Proofs.WalletRtP Proofs.WalletHlP Proofs.WalletLayoutP
+  Proofs.WalletExtP Proofs.WalletEnvP Model.WalletTransfer Proofs.WalletTransferP.
+From Tongo Require Model.TlbCore Spec.Dict Model.Hashmap.
 Import ListNotations.
 
 (** VerifySignature accepts exactly when the primitive accepts the signature
@@ -50,7 +52,7 @@ Theorem C14_built_message_verifies :
   length addr = 256%nat -> init_ok chash init -> sendable (w_ver w) ->
   raw_send_msg SK chash sign w sk wc addr seqno valid ms init rnd = Ok (h, e) ->
   exists body,
-    parse_ext chash e = Ok (mkext (Z.to_N (wc mod 256)) addr init body) /\
+    parse_ext chash e = Ok (mkext (ext_in_std wc addr) init body) /\
     (forall appended, verify_layout (w_ver w) = Some appended ->
                       verify_signature chash verify (w_ver w) e (pub sk) = Ok tt) /\
     (if sig_appended (w_ver w) then v5_verify chash verify (pub sk) body
@@ -181,6 +183,137 @@ Theorem C14_body_size :
   | _ => False
   end.
 Proof. exact body_size. Qed.
+
+(** *** v5r1 extended actions (add / remove extension, set signature auth) *)
+
+(** layout: fixed fields, actions bit, then "0", or "1" and the FIRST extended
+    action in the body cell itself; references: the action list, then the cell
+    of the second extended action, which refers to the third, ...; signature last *)
+Theorem C14_v5r1x_layout :
+  forall (SK : Type) (chash : cell -> res bytes) (sign : SK -> bytes -> bits)
+         w sk ms xs seqno valid mt body,
+  create_body_v5r1x SK chash sign w sk ms xs seqno valid mt = Ok body ->
+  exists a p u hu,
+    actions_cell ms = Ok a /\ v5r1x_parts xs = Ok p /\
+    u = ocell (u32 mt ++ u32 (w_wid w) ++ u32 (unix32 valid) ++ u32 seqno ++ [true] ++ fst p) (a :: snd p) /\
+    chash u = Ok hu /\
+    body = ocell (cdata u ++ sign sk hu) (crefs u).
+Proof. exact v5r1x_layout. Qed.
+
+(** the signature covers every other bit and every reference, extended actions
+    and their chain included; the message verifies under its key *)
+Theorem C14_v5r1x_signed_part :
+  forall (SK : Type) (chash : cell -> res bytes) (sign : SK -> bytes -> bits),
+  (forall sk m, length (sign sk m) = 512%nat) ->
+  forall w sk ms xs seqno valid mt body,
+  create_body_v5r1x SK chash sign w sk ms xs seqno valid mt = Ok body ->
+  exists u hu, unsigned_v5r1x w ms xs seqno valid mt = Ok u /\ chash u = Ok hu /\
+    v5_split body = Ok (sign sk hu, u) /\ signed_hash chash true body = Ok (sign sk hu, hu).
+Proof. exact v5r1x_signed_part. Qed.
+
+Theorem C14_v5r1x_verifies :
+  forall (SK : Type) (chash : cell -> res bytes) (sign : SK -> bytes -> bits)
+         (verify : bits -> bytes -> bits -> bool) (pub : SK -> bits),
+  (forall sk m, length (sign sk m) = 512%nat) ->
+  forall w sk ms xs seqno valid mt body wc addr init e h,
+  (forall m, verify (pub sk) m (sign sk m) = true) -> length (pub sk) = 256%nat ->
+  create_body_v5r1x SK chash sign w sk ms xs seqno valid mt = Ok body ->
+  v5_verify chash verify (pub sk) body = Ok tt /\
+  (length addr = 256%nat -> init_ok chash init -> ext_msg wc addr init body = Ok e -> chash e = Ok h ->
+   verify_signature chash verify V5R1 e (pub sk) = Ok tt).
+Proof. exact v5r1x_verifies. Qed.
+
+(** decoding returns the messages AND the extended actions, in order *)
+Theorem C14_v5r1x_roundtrip :
+  forall (SK : Type) (chash : cell -> res bytes) (sign : SK -> bytes -> bits),
+  (forall sk m, length (sign sk m) = 512%nat) ->
+  forall w sk ms xs seqno valid body,
+  modes_ok ms -> (seqno < 4294967296)%N -> xs <> Some [] ->
+  create_body_v5r1x SK chash sign w sk ms xs seqno valid op_signed_external = Ok body ->
+  decode_v5r1x body = Ok (mkdec (w_wid w mod 4294967296) (unix32 valid) seqno 0 ms, xs).
+Proof. exact v5r1x_roundtrip. Qed.
+Print Assumptions C14_v5r1x_roundtrip.
+
+(** a signature never transfers to another signed part (so not to a body with a
+    changed, added or dropped extended action either) *)
+Theorem C14_foreign_part_rejected :
+  forall (SK : Type) (chash : cell -> res bytes) (sign : SK -> bytes -> bits)
+         (verify : bits -> bytes -> bits -> bool) (pub : SK -> bits) sk u hu v appended m' e' part',
+  ideal_signature SK sign verify pub -> chash u = Ok hu -> no_second_preimage chash u ->
+  verify_layout v = Some appended -> parse_ext chash m' = Ok e' ->
+  (if appended then v5_split (e_body e') else split_signed (e_body e')) = Ok (sign sk hu, part') ->
+  part' <> u ->
+  verify_signature chash verify v m' (pub sk) <> Ok tt.
+Proof. exact foreign_part_rejected. Qed.
+
+(** *** any envelope.  The message decoder (tlb.Message) gives back info, init
+    and body for every CommonMsgInfo constructor, every MsgAddress form (anycast
+    included), init absent / by reference / inline, body by reference / inline. *)
+Theorem C14_envelope_roundtrip :
+  forall (chash : cell -> res bytes) info fi fb sp ty mk_ h,
+  info_ok info -> init_form_ok fi ->
+  chash (Cell sp ty mk_ (info_bits info ++ init_bits_of fi ++ body_bits_of fb)
+              (init_refs_of fi ++ body_refs_of fb)) = Ok h ->
+  parse_ext chash (Cell sp ty mk_ (info_bits info ++ init_bits_of fi ++ body_bits_of fb)
+                        (init_refs_of fi ++ body_refs_of fb)) =
+    Ok (mkext info (init_cell_of fi) (body_cell_of fb)).
+Proof. exact envelope_roundtrip. Qed.
+
+(** every StateInit (any split depth, tick/tock, code, data, library dictionary)
+    is a valid inline init *)
+Theorem C14_stateinit_any_form :
+  forall sd sp code data kvs libbit librefs,
+  lib_wf kvs -> lib_field kvs libbit librefs ->
+  si_consumes (si_bits sd sp code data libbit) (opt_list code ++ opt_list data ++ librefs).
+Proof. exact si_spec_consumes. Qed.
+
+(** a built body carried by ANY such envelope (by reference or inline): decoding
+    and verification, which start from the full message cell, give the requested
+    fields and accept the key *)
+Theorem C14_any_envelope_roundtrip :
+  forall (SK : Type) (chash : cell -> res bytes) (sign : SK -> bytes -> bits)
+         (verify : bits -> bytes -> bits -> bool) (pub : SK -> bits),
+  (forall sk m, length (sign sk m) = 512%nat) ->
+  forall w sk seqno valid ms rnd body info fi fb sp ty mk_ h,
+  modes_ok ms -> sendable (w_ver w) -> (seqno < 4294967296)%N ->
+  create_body SK chash sign w sk ms seqno valid op_signed_external rnd = Ok body ->
+  info_ok info -> init_form_ok fi -> carries fb body ->
+  let m := Cell sp ty mk_ (info_bits info ++ init_bits_of fi ++ body_bits_of fb)
+                (init_refs_of fi ++ body_refs_of fb) in
+  chash m = Ok h ->
+  exists d,
+    decode_msg chash (w_ver w) m = Ok d /\ extract_raw chash (w_ver w) m = Ok ms /\
+    d_msgs d = ms /\ d_id d = expected_id w /\ d_valid d = unix32 valid /\
+    (w_ver w <> HLV2R2 -> d_seqno d = seqno) /\
+    (forall appended, (forall x, verify (pub sk) x (sign sk x) = true) -> length (pub sk) = 256%nat ->
+       verify_layout (w_ver w) = Some appended ->
+       verify_signature chash verify (w_ver w) m (pub sk) = Ok tt).
+Proof. exact any_envelope_roundtrip. Qed.
+Print Assumptions C14_any_envelope_roundtrip.
+
+(** *** the carried messages are the requested transfers.  The internal message
+    of a transfer is the encoding, in the TL-B codec model of C03, of the
+    tlb.Message value Message.ToInternal builds from (amount, destination, bounce,
+    body, code+data, mode) ([msg_ty] = the descriptor translated from tlb.Message,
+    C14_gen_message_descriptor); decoding a carried cell gives the fields back *)
+Theorem C14_transfer_roundtrip :
+  forall t m, transfer_ok t -> internal_msg t = Ok m -> decode_transfer m = Ok t.
+Proof. exact transfer_roundtrip. Qed.
+Print Assumptions C14_transfer_roundtrip.
+
+(** so the message a wallet sends carries exactly the requested transfers, in
+    order: extract the carried cells from the full external message, decode each *)
+Theorem C14_transfers_carried :
+  forall (SK : Type) (chash : cell -> res bytes) (sign : SK -> bytes -> bits)
+         w sk wc addr seqno valid ts ms init rnd h e,
+  (forall sk m, length (sign sk m) = 512%nat) ->
+  Forall transfer_ok ts -> Forall (fun t => (t_mode t < 256)%N) ts ->
+  internal_msgs ts = Ok ms ->
+  length addr = 256%nat -> init_ok chash init -> sendable (w_ver w) -> (seqno < 4294967296)%N ->
+  raw_send_msg SK chash sign w sk wc addr seqno valid ms init rnd = Ok (h, e) ->
+  exists carried, extract_raw chash (w_ver w) e = Ok carried /\ decode_transfers carried = Ok ts.
+Proof. exact transfers_carried. Qed.
+Print Assumptions C14_transfers_carried.
 
 (** The executable instance: [chash] = the TON representation hash over
     SHA-256 (C02 proves the implementation's Cell.Hash equal to it). *)
